@@ -5,6 +5,7 @@ package props
 import (
 	"encoding/hex"
 	"fmt"
+	"strings"
 	"testing"
 	"time"
 
@@ -61,7 +62,7 @@ func c05Sess(idx int, alloc, choose bool, bad string) model.Op {
 }
 
 func genC05(t *rapid.T) c05Case {
-	c := c05Case{Pool: rapid.SampledFrom([]string{"10.250.0.8/29", "10.250.0.4/30"}).Draw(t, "pool"),
+	c := c05Case{UP4: rapid.IntRange(0, 2).Draw(t, "up4") == 0, Pool: rapid.SampledFrom([]string{"10.250.0.8/29", "10.250.0.4/30"}).Draw(t, "pool"),
 		Ending: rapid.SampledFrom([]string{"del", "release", "release", "srr404", "silence", "hbfail"}).Draw(t, "ending")}
 	capN := 6
 	if c.Pool == "10.250.0.4/30" {
@@ -127,6 +128,13 @@ func poolCap(cidr string) int {
 // c05Invariant checks tables, gauge and pool conservation against the live sessions of the model.
 func c05Invariant(r *Rig, run *sim.Runner, c c05Case, when string) error {
 	live := run.LiveSessions()
+	if r.P4 != nil {
+		r.P4.WaitQuiet(5 * time.Second)
+		env := sim.UP4Env{AccessIP: model.IP2U("198.18.0.1"), AccessLen: 32, PoolNet: model.IP2U(strings.Split(c.Pool, "/")[0]) & model.MaskOf(poolLen(c.Pool)), PoolLen: poolLen(c.Pool), DefaultTC: 3}
+		if _, err := run.CheckUP4Image(r.P4.Snap(), env, sim.UP4Opts{Meters: true}); err != nil {
+			return fmt.Errorf("%s: %w", when, err)
+		}
+	}
 	if r.B != nil {
 		r.B.WaitQuiet(5 * time.Second)
 		if err := run.CheckBessImage(r.B.Snap(), bessEnv(), sim.BessImageOpts{QER: true}); err != nil {
@@ -163,7 +171,33 @@ func c05Invariant(r *Rig, run *sim.Runner, c c05Case, when string) error {
 	if pools["teid_held"] != wantTEID {
 		return fmt.Errorf("%s: %d UP-chosen TEIDs are still allocated but live sessions hold %d", when, pools["teid_held"], wantTEID)
 	}
+	if r.P4 != nil && r.Base != nil {
+		nPDR, nQ := 0, 0
+		for _, s := range live {
+			nPDR += len(s.PDRs)
+			nQ += len(s.QERs)
+		}
+		if pools["ctr_free"] != r.Base["ctr_free"]-nPDR {
+			return fmt.Errorf("%s: %d counter cells are free, want %d (capacity) - %d (live PDRs)", when, pools["ctr_free"], r.Base["ctr_free"], nPDR)
+		}
+		if pools["meters"] != nQ {
+			return fmt.Errorf("%s: the plug-in tracks %d meters but live sessions have %d QERs", when, pools["meters"], nQ)
+		}
+		if len(live) == 0 {
+			for _, k := range []string{"appmeter_free", "sessmeter_free", "tnlpeer_free", "app_free", "tnlpeer_held", "app_held", "ue2fseid", "fseid2ue"} {
+				if pools[k] != r.Base[k] {
+					return fmt.Errorf("%s: with no live session %s is %d, want the start-up value %d", when, k, pools[k], r.Base[k])
+				}
+			}
+		}
+	}
 	return nil
+}
+
+func poolLen(cidr string) int {
+	var a, b, c, d, l int
+	fmt.Sscanf(cidr, "%d.%d.%d.%d/%d", &a, &b, &c, &d, &l)
+	return l
 }
 
 func runC05(c c05Case, ev *Ev) error {
@@ -183,6 +217,7 @@ func runC05(c c05Case, ev *Ev) error {
 	if err != nil {
 		return fmt.Errorf("INFRA: %v", err)
 	}
+	r.Base = r.A.Iface.VerifPools()
 	run, err := r.newRunner(2)
 	if err != nil {
 		return fmt.Errorf("INFRA: %v", err)
@@ -249,7 +284,10 @@ func runC05(c c05Case, ev *Ev) error {
 					break
 				}
 			} else if g == 0 {
-				break
+				ps := r.P4.Snap()
+				if len(ps.Tables["sessions_uplink"])+len(ps.Tables["sessions_downlink"])+len(ps.Tables["terminations_uplink"])+len(ps.Tables["terminations_downlink"]) == 0 {
+					break
+				}
 			}
 			time.Sleep(20 * time.Millisecond)
 		}
